@@ -8,5 +8,5 @@ Require Import XV.SafeErrDefs XV.GenSafeErr.
 Extraction "extracted/safeErr_model.ml"
   BinNums.positive BinNums.N BinNums.Z
   g_eval g_init t_call t_init nesting_refused
-  variable_guard_search variable_value_stored attribute_set_guard_search attribute_set_value_stored
+  variable_guard_search variable_value_stored variable_dlimit attribute_set_guard_search attribute_set_value_stored
   template_limit_cmp template_nesting_limit template_stack_initial xpath_nesting_cmp xpath_nesting_limit.
